@@ -436,6 +436,10 @@ func witnesses() []genInput {
 		{ID: "witness-0", Items: []Item{
 			{K: "rule", Path: []PathEl{selEl("p,#s"), selEl(".a")}, Decls: color("red")},
 			{K: "rule", Path: []PathEl{selEl("#s")}, Decls: color("blue")}}},
+		// the minifier inlines `& {}` under a list of mixed specificity (run with minify, any target)
+		{ID: "witness-2", Items: []Item{
+			{K: "rule", Path: []PathEl{selEl("[title]")}, Decls: color("blue")},
+			{K: "rule", Path: []PathEl{selEl("p,#s"), selEl("&")}, Decls: color("red")}}},
 		// `&` inside :not() under a list, lowered for a target without :is()
 		{ID: "witness-1", Items: []Item{
 			{K: "rule", Path: []PathEl{selEl(".a,.b"), selEl(":not(&) .c")}, Decls: color("red")}}},
